@@ -132,7 +132,17 @@ def h_op(env, op="flip", n=3, dtype="float32", input_order="xyz", output_order="
             return v
     elif op == "remove":
         idx, from1 = arg[0], arg[1]
-        if len(arg) > 2 and arg[2] == "array":
+        if len(arg) > 2 and arg[2] in ("txt", "csv"):
+            # indices taken from a file: one index per line, or a table with a boolean ToBeRemoved column (always 0-based)
+            if arg[2] == "txt":
+                ipath = env.real_path("remove.txt")
+                open(ipath, "w").write("\n".join(str(int(v)) for v in idx) + "\n")
+            else:
+                ipath = env.real_path("remove.csv")
+                zero_based = [i - 1 if from1 else i for i in idx]
+                open(ipath, "w").write("Index,ToBeRemoved\n" + "\n".join("%d,%s" % (t, "True" if t in zero_based else "False") for t in range(n)) + "\n")
+            res = ts.remove_tilts(src, ipath, numbered_from_1=from1, output_file=outp, **kw)
+        elif len(arg) > 2 and arg[2] == "array":
             # indices handed over as the caller's ndarray, which is then used for a SECOND call: the caller's array must be
             # left alone and the second result (checked below) must be the same selection
             ia = np.array(list(idx))
@@ -245,6 +255,8 @@ def jobs(tier, seed):
           ("h_op", {"op": "sort", "n": 5, "arg": "file", "out_file": True}), ("h_op", {"op": "sort", "n": 4, "arg": "list", "dtype": "int16", "input_order": "zyx", "output_order": "zyx"}),
           ("h_op", {"op": "sort", "n": 3, "arg": "file", "via_file": True, "input_order": "zyx"}),
           ("h_op", {"op": "bin", "n": 2, "arg": 2, "dtype": "int16", "input_order": "xyz", "output_order": "zyx"}), ("h_op", {"op": "bin", "n": 2, "arg": 3, "dtype": "int16", "input_order": "zyx", "output_order": "zyx", "out_file": True}),
+          ("h_op", {"op": "remove", "n": 5, "arg": ([1, 4], True, "txt"), "out_file": True}), ("h_op", {"op": "remove", "n": 4, "arg": ([0, 3], False, "txt"), "dtype": "int16", "input_order": "zyx"}),
+          ("h_op", {"op": "remove", "n": 5, "arg": ([2, 3], True, "csv"), "input_order": "zyx", "output_order": "zyx"}),
           ("h_op", {"op": "split", "n": 7, "dtype": "int16", "out_file": True}), ("h_op", {"op": "split", "n": 3, "via_file": True, "input_order": "zyx"})]
     if tier == "thorough":
         j += [("h_op", {"op": "sort", "n": 4}), ("h_op", {"op": "bin", "n": 2, "arg": 4, "dtype": "int16", "out_file": True}),
